@@ -279,6 +279,7 @@ func (z *Zipper) matchUsers(usersOld, usersNew []ssa.Instruction) {
 }
 
 func (z *Zipper) areEquivalent(a, b ssa.Instruction) bool {
+	verifCountEquivalence()
 	if reflect.TypeOf(a) != reflect.TypeOf(b) {
 		return false
 	}
